@@ -37,8 +37,20 @@ func (r *Run) decimal(x *smt.Term, o fmtOpts) []*smt.Term {
 	if x.IsConst() {
 		return mkStr(strconv.FormatUint(x.K, 10)).B
 	}
+	if ds, ok := r.decCache[x]; ok {
+		return ds
+	}
 	if !o.allowFork {
 		panic(imprecise{"symbolic decimal"})
+	}
+	// a number that was itself parsed from digit bytes prints as those digits (leading zeros
+	// stripped): format(parse(d)) = d, recognised syntactically instead of left to the solver
+	if h := r.hornerOf(x); h != nil {
+		ds := h
+		for len(ds) > 1 && r.branch(r.B.Eq(ds[0], smt.Const(8, '0'))) {
+			ds = ds[1:]
+		}
+		return ds
 	}
 	B := r.B
 	maxd := map[uint8]int{8: 3, 16: 5, 32: 10, 64: 20}[x.W]
@@ -75,6 +87,16 @@ func (r *Run) decimal(x *smt.Term, o fmtOpts) []*smt.Term {
 		ds[n-1-i] = B.Add(d, smt.Const(8, '0'))
 	}
 	r.assumeRaw(B.Eq(sum, target))
+	if r.decReg == nil {
+		r.decReg = map[*smt.Term]decEntry{}
+	}
+	for i, d := range ds {
+		r.decReg[d] = decEntry{x: x, i: i, n: n}
+	}
+	if r.decCache == nil {
+		r.decCache = map[*smt.Term][]*smt.Term{}
+	}
+	r.decCache[x] = ds
 	return ds
 }
 
@@ -519,4 +541,37 @@ func (r *Run) sprint(args []Value, ln bool, o fmtOpts) []*smt.Term {
 		out = append(out, smt.Const(8, '\n'))
 	}
 	return out
+}
+
+type decEntry struct {
+	x    *smt.Term
+	i, n int
+}
+
+type hornerEntry struct {
+	digits []*smt.Term
+	maxVal uint64
+}
+
+// hornerOf returns the digit bytes x was parsed from, if x is (an extension or a lossless
+// truncation of) a value produced by the ParseUint summary on the current path.
+func (r *Run) hornerOf(x *smt.Term) []*smt.Term {
+	if r.hornerReg == nil {
+		return nil
+	}
+	for x.Op == smt.OpZExt {
+		x = x.A[0]
+	}
+	if h, ok := r.hornerReg[x]; ok {
+		return h.digits
+	}
+	if x.Op == smt.OpExtract && x.K&0xff == 0 {
+		if h, ok := r.hornerReg[x.A[0]]; ok {
+			w := uint(x.K>>8) + 1
+			if w >= 64 || h.maxVal < uint64(1)<<w {
+				return h.digits
+			}
+		}
+	}
+	return nil
 }
